@@ -9,6 +9,7 @@ MODULES = [
     "queues",
     "process_executor",
     "context",
+    "resource_tracker",
     "properties",
 ]
 
